@@ -4,6 +4,8 @@ import (
 	"sync"
 	"sync/atomic"
 	"time"
+
+	"github.com/thushan/olla/internal/verifhook"
 )
 
 type CircuitBreakerState int32
@@ -48,6 +50,7 @@ func (cb *CircuitBreaker) Allow() bool {
 	case CircuitOpen:
 		lastFailure := time.Unix(0, cb.lastFailureTime.Load())
 		if time.Since(lastFailure) > cb.config.OpenDuration {
+			verifhook.Point("unifier.breaker.halfopen", "")
 			cb.transitionToHalfOpen()
 			return cb.allowHalfOpen()
 		}
